@@ -302,7 +302,7 @@ type TLCOpts struct {
 	Workers  int
 	Tag      string
 	Simulate bool
-	retried bool
+	retried  bool
 	// StdoutFile: write TLC's output to this file instead of keeping it in memory (large dumps); Out then
 	// only holds the lines that are not dump lines
 	StdoutFile string
